@@ -431,4 +431,20 @@ def _rp_pairs3(k1, k2, k3):
   return c, d, "pair3-" + k
 
 
-REPLAY = dict(added_duplicates=_rp_added, form_signatures3=_rp_forms3, pair_keys3=_rp_pairs3, pair_keys=_rp_pair, density_keys_fs=_rp_density, embed_keys=_rp_embed, form_signatures=_rp_forms, table_form_headers=_rp_headers, form_kinds=_rp_kinds)
+def _after_other_model(rp):
+  """a counterexample that only shows after other models were tabulated in the process (state kept in class or module level
+  objects): the replay tabulates an ordinary model first and tries again"""
+  def run(*a, **k):
+    r = rp(*a, **k)
+    if r[0]:
+      return r
+    outcome(HEAD % "LAMMPS" + "[Pair]\nA-B : as.buck 1000.0 0.3 10.0\nB-B : as.buck4 1000.0 0.3 10.0 1.2 2.1 2.6\n")
+    outcome(HEAD % "setfl" + "[Pair]\nA-A : as.zero\n\n[EAM-Embed]\nA : as.zero\n\n[EAM-Density]\nA : as.zero\n" + SPECIES)
+    r = rp(*a, **k)
+    if r[0]:
+      return True, r[1] + " (after two ordinary models were tabulated in this process)", r[2] + "-after-other-models"
+    return r
+  return run
+
+
+REPLAY = dict((k_, _after_other_model(v_)) for k_, v_ in dict(added_duplicates=_rp_added, form_signatures3=_rp_forms3, pair_keys3=_rp_pairs3, pair_keys=_rp_pair, density_keys_fs=_rp_density, embed_keys=_rp_embed, form_signatures=_rp_forms, table_form_headers=_rp_headers, form_kinds=_rp_kinds).items())
